@@ -101,7 +101,7 @@ func plantFor(c *mon.Case, plant string, k *key, digestFree bool) (blocks [][]by
 
 func complete(x *mon.Ctx) {
 	selfTest(x)
-	total := x.Scale(440, 6600)
+	total := x.Scale(440, 5060)
 	for i := 0; i < total; i++ {
 		// first signer x plant form a complete grid every 110 cases; the other class
 		// choices are drawn per index (independent of the shard layout)
